@@ -16,6 +16,11 @@ sample_case(rng, name, mode=None, feasible=True)               -> spec for a str
 pack_rows(tensor, cols) / unpack_rows(ints, cols)               bit-packed rows (bit j = column j)
 libc_candidates_1d / libc_candidates_2d                         candidate streams of the Cython Gaussian kernels
 
+Optional spec keys: "via_build": True (construct through `build_masking_function`, unknown kwargs are filtered),
+"extra": constructor options (crop_corner, max_attempts, tol, slopes, alpha, std_scale, uniform_range).
+`sample_options(rng, name, rows, cols)` draws such options; `Worker(env={"VERIF_FORCE_FRONTEND": "1"})` runs the
+Cython kernels through the bounds-checked .pyx front-end (an active-list overrun of `_poisson` becomes an IndexError).
+
 A *spec* is {"gen": name, "mode": "static"|…, "shape": [...], "acc": number | [numbers], "cf": number | [numbers] | None,
 "seed": int|list|None, "return_acs": bool, "extra": {...}}.  With lists the generator picks one pair per call
 (`choose_acceleration`, first recorded draw): `chosen(spec, result)` gives the pair that was used.
@@ -70,14 +75,21 @@ def _S():
     return subsample
 
 
-def make(name: str, mode: str, acc, cf, **extra):
+def make(name: str, mode: str, acc, cf, via_build: bool = False, **extra):
+    """the real mask function: through the class constructor, or (`via_build`) through
+    `build_masking_function(name, …, **extra)` whose keyword filtering then drops what the class does not take"""
     S = _S()
     from direct.types import MaskFuncMode
 
+    accs = list(acc) if isinstance(acc, (list, tuple)) else [acc]
+    cfs = None if cf is None else (list(cf) if isinstance(cf, (list, tuple)) else [cf])
+    if via_build:
+        extra = dict(extra)
+        return S.build_masking_function(name, accs, cfs, extra.pop("uniform_range", False), MaskFuncMode(mode), **extra)
     cls = getattr(S, name + "MaskFunc")
-    kw = dict(accelerations=list(acc) if isinstance(acc, (list, tuple)) else [acc], **extra)
-    if cf is not None:
-        kw["center_fractions"] = list(cf) if isinstance(cf, (list, tuple)) else [cf]
+    kw = dict(accelerations=accs, **extra)
+    if cfs is not None:
+        kw["center_fractions"] = cfs
     if not is_kt(name):
         kw["mode"] = MaskFuncMode(mode)
     return cls(**kw)
@@ -149,7 +161,8 @@ def run_spec(spec: dict) -> dict:
     out: dict = {"ok": False}
     rng = None
     try:
-        f = make(spec["gen"], spec["mode"], spec["acc"], spec.get("cf"), **spec.get("extra", {}))
+        f = make(spec["gen"], spec["mode"], spec["acc"], spec.get("cf"), via_build=bool(spec.get("via_build")),
+                 **spec.get("extra", {}))
         rng = _recording_rng()
         f.rng = rng
         seed = spec.get("seed")
@@ -294,14 +307,15 @@ class Worker:
     `run(spec, timeout)` returns the result dict; on timeout the subprocess is killed (and restarted on
     the next call) and {"ok": False, "hang": True, "err": "Timeout", "timeout": s} is returned."""
 
-    def __init__(self, module: str = "props.maskgen_common", func: str = "run_spec"):
+    def __init__(self, module: str = "props.maskgen_common", func: str = "run_spec", env: dict | None = None):
         self.module, self.func = module, func
+        self.env = dict(env or {})     # e.g. {"VERIF_FORCE_FRONTEND": "1"}: bounds-checked pure-Python Cython kernels
         self.p = None
         self.spawned = 0
         self.hangs = 0
 
     def _spawn(self):
-        env = dict(os.environ, PYTHONDONTWRITEBYTECODE="1", PYTHONWARNINGS="ignore")
+        env = dict(os.environ, PYTHONDONTWRITEBYTECODE="1", PYTHONWARNINGS="ignore", **self.env)
         code = (f"import sys; sys.path.insert(0, {str(HERE.parent)!r}); import boot, json, importlib\n"
                 f"fn = getattr(importlib.import_module({self.module!r}), {self.func!r})\n"
                 "out = sys.stdout; sys.stdout = sys.stderr\n"
@@ -454,6 +468,35 @@ def sample_params(rng, name: str, rows: int, cols: int, want_feasible=True, trie
     return None
 
 
+def sample_options(rng, name: str, rows: int, cols: int) -> dict:
+    """rarely used constructor options, per generator (empty dict = defaults)"""
+    o: dict = {}
+    if name == "VariableDensityPoisson":
+        if rng.random() < 0.3:
+            o["crop_corner"] = True
+        if rng.random() < 0.4:
+            o["max_attempts"] = rng.choice([3, 5, 30]) if max(rows, cols) <= 16 else rng.choice([3, 5])
+        if rng.random() < 0.3:
+            o["tol"] = rng.choice([0.1, 0.5, 1.0])
+        if rng.random() < 0.3:
+            o["slopes"] = rng.choice([[0, 20], [0.5, 60], [0, 200]])
+    elif name == "KtRadial":
+        if rng.random() < 0.5:
+            o["crop_corner"] = True
+    elif name == "KtGaussian1D":
+        if rng.random() < 0.4:
+            o["alpha"] = rng.choice([0.1, 0.5, 0.8])
+        if rng.random() < 0.4:
+            o["std_scale"] = rng.choice([2.0, 3.0, 8.0])
+    return o
+
+
+def risky(spec: dict) -> bool:
+    """calls known to be able to overrun the compiled `_poisson` kernel's active lists (C07 finding
+    generator-crashes/VariableDensityPoisson/active-list-overrun): run them bounds-checked"""
+    return spec.get("gen") == "VariableDensityPoisson" and spec.get("extra", {}).get("max_attempts", 10) > 10
+
+
 def chosen(spec: dict, res: dict):
     """(acc, cf) actually used by a call: the first recorded draw is `choose_acceleration`'s index."""
     acc, cf = spec["acc"], spec.get("cf")
@@ -464,7 +507,7 @@ def chosen(spec: dict, res: dict):
     return acc[k], (cf[k] if isinstance(cf, (list, tuple)) else cf)
 
 
-def sample_case(rng, name: str, mode=None, feasible_only=True, small=False, rank=None, multi=0.0) -> dict | None:
+def sample_case(rng, name: str, mode=None, feasible_only=True, small=False, rank=None, multi=0.0, options=0.0) -> dict | None:
     mode = mode or rng.choice(modes_of(name))
     small = small or name in ("VariableDensityPoisson", "KtRadial")
     for _ in range(50):
@@ -477,7 +520,16 @@ def sample_case(rng, name: str, mode=None, feasible_only=True, small=False, rank
                 pr = ([q[0] for q in prs], [q[1] for q in prs])
         if pr is not None:
             acc, cf = pr
-            return {"gen": name, "mode": mode, "shape": shape, "acc": acc, "cf": cf,
+            spec = {"gen": name, "mode": mode, "shape": shape, "acc": acc, "cf": cf,
                     "seed": rng.choice([rng.randrange(2 ** 31), [rng.randrange(256) for _ in range(rng.randint(1, 6))]]),
                     "return_acs": False}
+            if rng.random() < options:
+                o = sample_options(rng, name, shape[-3], shape[-2])
+                if o:
+                    spec["extra"] = o
+                if rng.random() < 0.5:
+                    spec["via_build"] = True
+                    if rng.random() < 0.5:      # a keyword most classes do not take: must be filtered, not raise
+                        spec.setdefault("extra", {}).setdefault("crop_corner", False)
+            return spec
     return None
